@@ -139,8 +139,8 @@ def run(ctx):
         c01.run_theme(ctx, theme, cont, scr, n, listed, "mc-%s-%s-%d-%d" % (theme, cont, int(scr), n))
     # random deep fragment strings (TLC -simulate): the skeleton theorem is an invariant of these runs as well
     #  (this is how the frameset pop-to-root defect, repaired in /repo, was found)
-    for theme, num in (("cover", 10 if q else 300), ("frameset", 6 if q else 200), ("foreign", 6 if q else 200),
-                       ("foreignnames", 8 if q else 300)):
+    for theme, num in (("cover", 10 if q else 60), ("frameset", 6 if q else 40), ("foreign", 6 if q else 40),
+                       ("foreignnames", 8 if q else 50)):
         c01.run_theme(ctx, theme, "doc", False, 9, listed, "sim-%s" % theme, simulate=(num, 9))
     ctx.exhaustive = True
     # 2. totality + skeleton on arbitrary inputs
